@@ -225,3 +225,67 @@ func onlyCalledFrom(c *an.Ctx, fn *ssa.Function, owners []string, depth int) boo
 	}
 	return ok && n > 0
 }
+
+// foreignGuards returns the dominating guard atoms that speak about something outside the
+// given vocabulary (substrings of access paths).  A guard on a foreign path means there are
+// states in which the guarded effect silently does not happen; at the sites where this
+// helper is used the property fixes exactly which state may decide.
+func foreignGuards(f an.Facts, vocabulary ...string) []string {
+	var out []string
+	for _, a := range f {
+		ok := false
+		for _, v := range vocabulary {
+			if strings.Contains(a.L, v) {
+				ok = true
+			}
+		}
+		if !ok {
+			out = append(out, tempName.ReplaceAllString(a.String(), ""))
+		}
+	}
+	return out
+}
+
+// whoMayRead checks that every load of pkg.typ.field over the whole module lies in one of the
+// allowed functions (RelName -> reason).  Flow-control state that is consulted anywhere else
+// changes what "allow"/"skip" mean.
+func whoMayRead(c *an.Ctx, rule, pkgRel, typ, field string, allowed map[string]string, min int) {
+	n := 0
+	seen := map[string]int{}
+	full := an.ModPath + "/" + pkgRel
+	for _, fn := range c.P.ModFuncs {
+		rp := relPkg(fn)
+		if strings.HasPrefix(rp, "testing") || strings.HasPrefix(rp, "examples") {
+			continue
+		}
+		an.Instrs(fn, func(in ssa.Instruction) {
+			u, ok := in.(*ssa.UnOp)
+			if !ok || u.Op != token.MUL || !an.IsFieldAddrOf(u.X, full, typ, field) {
+				return
+			}
+			n++
+			name := an.RelName(an.OuterFn(fn))
+			seen[name]++
+			if seen[name] > 1 {
+				return // one obligation per reading function
+			}
+			key := fmt.Sprintf("read of %s.%s in %s", typ, field, name)
+			c.FuncsAnalysed[fn] = true
+			if why, ok := allowed[name]; ok {
+				c.Ok(rule, key, in.Pos(), "allowed reader: "+why)
+			} else {
+				c.Bad(rule, key, in.Pos(), fmt.Sprintf("%s.%s is consulted outside the rule loop (allowed readers: %s): the flow-control state then changes behaviour it is not documented to change", typ, field, strings.Join(sortedKeys2(allowed), ", ")))
+			}
+		})
+	}
+	c.MinCount(rule, "reads of "+typ+"."+field, n, min)
+}
+
+func sortedKeys2(m map[string]string) []string {
+	var ks []string
+	for k := range m {
+		ks = append(ks, shortFn(k))
+	}
+	sort.Strings(ks)
+	return ks
+}
